@@ -9,6 +9,9 @@ def run(c):
   cfgs = svccheck.identify_flags(c, backends, report=('metadataAtomic',))
   n = 120 if c.tier == 'quick' else 1500
   svccheck.differential(c, 'C01', n, backends, cfgs, lengths=(4, 24) if c.tier == 'quick' else (4, 40))
+  # the client library (clients.Study / clients.Trial / VizierClient) on top of the service: Model/Client.lean
+  from vcheck import clientcheck
+  clientcheck.stage(c, 'C01')
   # "any call on a missing study or trial": what a name denotes (resources.py) against its Lean model
   from vcheck import resourcecheck
   resourcecheck.stage(c)
